@@ -118,8 +118,8 @@ REGISTRY = {
         "trusted_base": COMMON_TRUST, "assumptions": [EXTERNAL, "gzip decompression and FASTA line joining (needletail) are exercised through the CLI only"],
     },
     "C03": {
-        "level": "proof", "modules": ["SkaModel.Props.C03", "SkaModel.Props.EndToEnd"], "gen": ["C03"], "cli": [cli.c03_cli],
-        "rule": "in-process: sample families (1-3 contigs, isolated and non-isolated substitutions, contigs permuted / reverse-complemented per sample) through build_and_merge + align vs model and vs the joint-build table specification; CLI: repeat-free ancestors (predicate checked, resampled otherwise), isolated SNP sites at the exact boundary distances (h+1 apart, h from the ends), 2-10 samples, expected = exactly the planted columns; non-trivial = families with at least one variable site",
+        "level": "proof", "modules": ["SkaModel.Props.C03", "SkaModel.Props.EndToEnd", "SkaModel.Props.C03Names"], "gen": ["C03"], "cli": [cli.c03_cli, cli.names_cli],
+        "rule": "sample names of file arguments (read_input_fastas in-process vs the model and vs the closed form of T03_name_path / T03_name_plain: directory prefixes, dots and blanks in stems, every case variant of the four extensions incl. the Unicode fold of s, line breaks, empty stems, doubled extensions, unknown extensions); in-process: sample families (1-3 contigs, isolated and non-isolated substitutions, contigs permuted / reverse-complemented per sample) through build_and_merge + align vs model and vs the joint-build table specification; CLI: repeat-free ancestors (predicate checked, resampled otherwise), isolated SNP sites at the exact boundary distances (h+1 apart, h from the ends), 2-10 samples, expected = exactly the planted columns; non-trivial = families with at least one variable site",
         "trusted_base": COMMON_TRUST, "assumptions": [EXTERNAL, "RepeatFree is the executable predicate: every canonical arm key occurs at one ancestor coordinate only over all samples and is not its own reverse complement"],
     },
     "C04": {
@@ -153,9 +153,9 @@ REGISTRY = {
         "trusted_base": COMMON_TRUST, "assumptions": [EXTERNAL],
     },
     "C09": {
-        "level": "proof", "modules": ["SkaModel.Props.C09"], "gen": [], "cli": [cli.c09_cli, cli.make_map_cli("C09", 24, 200), cli.make_hist_cli("C09", 30, 300, gen_prop="C10"), cli.route_cli],
-        "rule": "random tables for all 30 k x both widths (0-200 rows, 1-5 samples, all stored symbols; k>=33 families whose k-mers all fit in 64 bits; thorough: thousands of k-mers over several compression frames): saved by the real code, raw CBOR decoded + re-encoded by the model byte for byte; CLI merge in both orders and map/weed/nk/distance/align on 64-bit-fitting k>=33 files; non-trivial = tables with at least one k-mer",
-        "trusted_base": COMMON_TRUST, "assumptions": [EXTERNAL, "Snappy compression (write side) and serde derive are exercised, not modelled"],
+        "level": "proof", "modules": ["SkaModel.Props.C09", "SkaModel.Props.C09Snappy", "SkaModel.Props.C09Frame"], "gen": [], "cli": [cli.c09_cli, cli.c09_snappy_cli, cli.make_map_cli("C09", 24, 200), cli.make_hist_cli("C09", 30, 300, gen_prop="C10"), cli.route_cli],
+        "rule": "random tables for all 30 k x both widths (0-200 rows, 1-5 samples, all stored symbols; k>=33 families whose k-mers all fit in 64 bits; thorough: thousands of k-mers over several compression frames): saved by the real code, raw CBOR decoded + re-encoded by the model byte for byte; Snappy blocks written by the real compressor for every literal-length form, runs, periodic data around the 11-bit offset limit, low-entropy arrays and the serialised struct of real tables in 64 KiB blocks: parsed by the model into format elements, checked well-formed, denoting the data and re-serialising to the block, and decoded by model and snap alike, also on truncated and bit-flipped copies; CLI merge in both orders and map/weed/nk/distance/align on 64-bit-fitting k>=33 files; non-trivial = tables with at least one k-mer",
+        "trusted_base": COMMON_TRUST, "assumptions": [EXTERNAL, "the Snappy compressor is not modelled: its contract (every block it writes is a well-formed element stream of the format denoting its data - the hypothesis of T09_snappy_block / T09_save_load) is validated on the blocks it writes in every run (operation snapblock); serde derive is exercised, not modelled"],
     },
     "C17": {
         "level": "proof", "modules": ["SkaModel.Props.C17", "SkaModel.Props.C17Pipe", "SkaModel.Props.C17Paths", "SkaModel.Props.C17Real", "SkaModel.Props.C17Ref", "SkaModel.Props.C17Complete", "SkaModel.Props.C17RefComplete", "SkaModel.Props.C18Derep", "SkaModel.Props.C17Union"], "gen": ["C17"], "cli": [cli.c17_cli],
